@@ -547,6 +547,13 @@ func (ft *faulter) field(f *sField, n *jval, pos string) {
 			ft.add("unknown-key", k, pos, func() {
 				n.members = append(n.members, jmember{key: "zzUnknownKey", keyRaw: `"zzUnknownKey"`, val: jnum("1")})
 			})
+			ft.add("unknown-key", k+"-value-renamed", pos, func() {
+				for i := range n.members {
+					if n.members[i].key == "value" {
+						n.members[i].key, n.members[i].keyRaw = "zzUnknownKey", `"zzUnknownKey"`
+					}
+				}
+			})
 			ft.add("wrong-type", k+"-type", pos, func() {
 				for i := range n.members {
 					if n.members[i].key == "!type" {
